@@ -722,6 +722,9 @@ func (fr *Frame) atCallAsserts(key string, cc *ssa.CallCommon, st *State, pos to
 	}
 	vc := fr.vc
 	for _, at := range fr.spec.Ats {
+		if at.Clause == nil && at.Ghost == nil {
+			continue
+		}
 		if !calleeMatches(at.Callee, key, cc) {
 			continue
 		}
@@ -1256,7 +1259,17 @@ func (fr *Frame) atSendAsserts(ins *ssa.Send, v Term, st *State) {
 		return
 	}
 	vc := fr.vc
+	var ghosts []*GhostAssign
+	var gctx *SpecCtx
+	defer func() {
+		if len(ghosts) > 0 {
+			fr.applyGhosts(ghosts, gctx, st)
+		}
+	}()
 	for _, at := range fr.spec.Ats {
+		if at.Clause == nil && at.Ghost == nil {
+			continue
+		}
 		if !strings.HasPrefix(at.Callee, "send:") {
 			continue
 		}
@@ -1270,6 +1283,11 @@ func (fr *Frame) atSendAsserts(ins *ssa.Send, v Term, st *State) {
 		ctx := fr.specCtx(st, fr.entry, fr.curBlock, fr.curIdx)
 		v.T = ins.X.Type()
 		ctx.env["$val"] = v
+		if at.Ghost != nil {
+			ghosts = append(ghosts, at.Ghost)
+			gctx = ctx
+			continue
+		}
 		g, err := ctx.evalBool(at.Clause.E)
 		if err != nil {
 			vc.unsupportedf("at send %s: %v", name, err)
@@ -1338,6 +1356,9 @@ func sendChanMatches(ins *ssa.Send, name string) bool {
 			if pt, ok := fa.X.Type().Underlying().(*types.Pointer); ok && fieldName(pt.Elem(), fa.Field) == name {
 				return true
 			}
+		}
+		if g, ok := c.X.(*ssa.Global); ok && g.Name() == name {
+			return true // a package-level channel variable
 		}
 	}
 	return false
